@@ -15,6 +15,7 @@ REFUSED = ["[10 90]", "price:[10 90]", "f:[a b]", "{1 2}", "[a TO", "f:[1 TO 2",
            " )", "\r\n^2"]
 _hist_rng = __import__("random").Random(int(__import__("os").environ.get("VERIF_SEED", "0") or 0) + 7717)
 HISTORY = {"refused inputs parsed just before another parse": 0}
+HISTORY_RATE = [0.04]      # raised by the harness when an obligation broke / the source changed (escalated search)
 
 
 def impl_parse(q, entry="module", history=True):
@@ -24,7 +25,7 @@ def impl_parse(q, entry="module", history=True):
     pending blanks, a flag) must not reach the next parse, wherever in a check that next parse happens (seeded C13-G,
     C17-F: the parse of a PRINTED form right after a refused input)"""
     I = common.impl()
-    if history and _hist_rng.random() < 0.04:
+    if history and _hist_rng.random() < HISTORY_RATE[0]:
         HISTORY["refused inputs parsed just before another parse"] += 1
         try:
             if entry == "thread":
